@@ -95,12 +95,12 @@ def source_hash(repo=None):
 
 
 def _prune_cache(keep):
-    """keep the cache small: at most 6 fact sets"""
+    """keep the cache small: at most 24 fact sets"""
     ents = []
     for d in glob.glob(os.path.join(CACHE, "facts-*")):
         ents.append((os.path.getmtime(d), d))
     ents.sort()
-    for _, d in ents[:-6]:
+    for _, d in ents[:-24]:
         if d != keep:
             shutil.rmtree(d, ignore_errors=True)
 
